@@ -248,27 +248,11 @@ def sample_inputs(env, rng):
             lo, hi, dist = prm
             vals[names[0]] = _draw(rng, lo, hi, dist)
         elif kind == 'unitvec':
-            while True:
-                v = [rng.gauss(0, 1) for _ in names]
-                if rng.random() < 0.15:
-                    k = rng.randrange(len(v))
-                    v = [0.0] * len(v); v[k] = rng.choice([-1.0, 1.0])
-                n = _math.sqrt(sum(x * x for x in v))
-                if n > 1e-6:
-                    break
-            for nm, x in zip(names, v):
-                vals[nm] = x / n
+            for nm, x in zip(names, draw_unitvec(rng, len(names))):
+                vals[nm] = x
         elif kind == 'rot':
             n, = prm
-            if n == 2:
-                t = _draw(rng, None, None, 'angle')
-                R = [[_math.cos(t), -_math.sin(t)], [_math.sin(t), _math.cos(t)]]
-            else:
-                q = [rng.gauss(0, 1) for _ in range(4)]
-                nq = _math.sqrt(sum(x * x for x in q)); s, x, y, z = [c / nq for c in q]
-                R = [[1 - 2 * (y * y + z * z), 2 * (x * y - s * z), 2 * (x * z + s * y)],
-                     [2 * (x * y + s * z), 1 - 2 * (x * x + z * z), 2 * (y * z - s * x)],
-                     [2 * (x * z - s * y), 2 * (y * z + s * x), 1 - 2 * (x * x + y * y)]]
+            R = draw_rot(rng, n)
             for nm, x in zip(names, [e for r in R for e in r]):
                 vals[nm] = x
     # library-drawn random numbers (np.random.uniform inside the code)
@@ -280,45 +264,7 @@ def sample_inputs(env, rng):
     return vals
 
 
-_SPECIAL_ANGLES = [0.0, _math.pi / 2, -_math.pi / 2, _math.pi, -_math.pi, _math.pi / 4, 2 * _math.pi, 3 * _math.pi / 2]
-
-
-def _draw(rng, lo, hi, dist):
-    if dist == 'angle':
-        r = rng.random()
-        if r < 0.15:
-            x = rng.choice(_SPECIAL_ANGLES)
-        elif r < 0.25:
-            x = rng.choice(_SPECIAL_ANGLES) + rng.choice([-1, 1]) * 10 ** rng.uniform(-12, -1)
-        elif r < 0.9:
-            x = rng.uniform(-2 * _math.pi, 2 * _math.pi)
-        else:
-            x = rng.uniform(-40, 40)
-    elif dist == 'unit':       # s in [0,1]
-        r = rng.random()
-        x = 0.0 if r < 0.1 else (1.0 if r < 0.2 else rng.random())
-    elif dist == 'logmag':
-        l = lo if lo and lo > 0 else 1e-6
-        h = hi if hi else 1e6
-        x = 10 ** rng.uniform(_math.log10(l), _math.log10(h))
-        if lo is None or lo < 0:
-            x *= rng.choice([-1, 1])
-        return x
-    else:
-        r = rng.random()
-        if r < 0.08:
-            x = 0.0
-        elif r < 0.7:
-            x = rng.gauss(0, 1)
-        elif r < 0.85:
-            x = rng.gauss(0, 1) * 10 ** rng.uniform(-6, 0)
-        else:
-            x = rng.gauss(0, 1) * 10 ** rng.uniform(0, 4)
-    if lo is not None and x < lo:
-        x = lo + (abs(x - lo) % ((hi - lo) if hi is not None else 1e3))
-    if hi is not None and x > hi:
-        x = hi - (abs(x - hi) % ((hi - lo) if lo is not None else 1e3))
-    return x
+from .sampling import _draw, _SPECIAL_ANGLES, draw_unitvec, draw_rot
 
 
 def _evaluate_atoms_partial(vals):
